@@ -68,28 +68,46 @@ class Consumer:
         self.strict = strict          # running out of lines raises (next() without default)
         self.nexts, self.apps, self.decs = nexts, apps, decs
         self.lineno = head.lineno
+        self.expanded = False
 
     def __iter__(self):               # legacy tuple view
         return iter((self.head, self.counter, self.acc, self.nexts, self.apps, self.decs))
 
 
+def _islice_counter(e):
+    if isinstance(e, ast.Call) and dotted(e.func) in ('islice', 'itertools.islice') and \
+            len(e.args) == 2 and isinstance(e.args[1], ast.Name):
+        return e.args[1].id
+    return None
+
+
 def _consumer_loops(ctx, fi, g):
-    """loops of the reader that consume one name per iteration, in three recognised forms:
+    """constructs of the reader that move announced names into an accumulator, recognised forms:
        while c > 0: c -= 1; x = next(it); acc.append(f(x))          (strict)
        for _ in range(c): x = next(it); acc.append(f(x))             (strict)
-       for x in islice(it, c): acc.append(f(x))                      (NOT strict: stops silently)"""
+       for x in islice(it, c): acc.append(f(x))                      (NOT strict: stops silently)
+       acc.extend(f(x) for x in islice(it, c))                       (NOT strict)
+    a loop ``for c, acc in ((c1, acc1), (c2, acc2))`` around one of them is expanded in order."""
     out = []
     ps = params(fi)
     for n in g.nodes:
+        if n.kind == 'stmt' and isinstance(n.ast, ast.Expr) and isinstance(n.ast.value, ast.Call):
+            c = n.ast.value
+            if isinstance(c.func, ast.Attribute) and c.func.attr == 'extend' and \
+                    isinstance(c.func.value, ast.Name) and c.args and \
+                    isinstance(c.args[0], (ast.GeneratorExp, ast.ListComp)) and \
+                    len(c.args[0].generators) == 1:
+                cnt = _islice_counter(c.args[0].generators[0].iter)
+                if cnt is not None:
+                    out.append(Consumer(n, cnt, c.func.value.id, 'extend-islice', False, [], [n.id], []))
+            continue
         if n.kind == 'test' and isinstance(n.stmt, ast.While):
             t = n.ast
             if not (isinstance(t, ast.Compare) and isinstance(t.left, ast.Name) and len(t.ops) == 1):
                 continue
             counter, form = t.left.id, 'while-next'
-        elif n.kind == 'for' and isinstance(n.ast, ast.Call) and dotted(n.ast.func) in (
-                'islice', 'itertools.islice') and len(n.ast.args) == 2 and \
-                isinstance(n.ast.args[1], ast.Name):
-            counter, form = n.ast.args[1].id, 'for-islice'
+        elif n.kind == 'for' and _islice_counter(n.ast) is not None:
+            counter, form = _islice_counter(n.ast), 'for-islice'
         elif n.kind == 'for' and isinstance(n.ast, ast.Call) and dotted(n.ast.func) == 'range' and \
                 len(n.ast.args) == 1 and isinstance(n.ast.args[0], ast.Name):
             counter, form = n.ast.args[0].id, 'for-range-next'
@@ -103,7 +121,7 @@ def _consumer_loops(ctx, fi, g):
         for b in body_nodes:
             for c in node_calls(g, b):
                 if isinstance(c.func, ast.Attribute) and c.func.attr == 'append' and \
-                        isinstance(c.func.value, ast.Name) and c.func.value.id in ps:
+                        isinstance(c.func.value, ast.Name):
                     apps.append(b)
                     acc = c.func.value.id
         decs = [b for b in body_nodes if g.node(b).kind == 'stmt' and
@@ -114,7 +132,32 @@ def _consumer_loops(ctx, fi, g):
         strict = form != 'for-islice' and all(
             len(c.args) == 1 for b in nexts for c in node_calls(g, b) if dotted(c.func) == 'next')
         out.append(Consumer(n, counter, acc, form, strict, nexts, apps, decs))
-    return out
+    # expansion of an enclosing loop over a literal tuple of (counter, accumulator) pairs
+    res = []
+    for cons in out:
+        stmt = cons.head.stmt if cons.form != 'extend-islice' else cons.head.ast
+        outer = None
+        node = stmt
+        while getattr(node, '_parent', None) is not None and node._parent is not fi.node:
+            node = node._parent
+            if isinstance(node, ast.For) and isinstance(node.target, ast.Tuple) and \
+                    isinstance(node.iter, (ast.Tuple, ast.List)) and \
+                    all(isinstance(e, (ast.Tuple, ast.List)) and len(e.elts) == len(node.target.elts)
+                        and all(isinstance(x, ast.Name) for x in e.elts) for e in node.iter.elts):
+                outer = node
+                break
+        tnames = [e.id for e in outer.target.elts if isinstance(e, ast.Name)] if outer else []
+        if outer is not None and cons.counter in tnames and cons.acc in tnames:
+            ci, ai = tnames.index(cons.counter), tnames.index(cons.acc)
+            for k, e in enumerate(outer.iter.elts):
+                c2 = Consumer(cons.head, e.elts[ci].id, e.elts[ai].id, cons.form, cons.strict,
+                              cons.nexts, cons.apps, cons.decs)
+                c2.lineno = cons.lineno + k * 1e-3
+                c2.expanded = True
+                res.append(c2)
+        elif cons.acc in ps:
+            res.append(cons)
+    return res
 
 
 def r1_r2_wire(ctx, rep, R1='C07.R1', R2='C07.R2'):
@@ -180,8 +223,9 @@ def r1_r2_wire(ctx, rep, R1='C07.R1', R2='C07.R2'):
         a, b = loops[0].head.id, loops[1].head.id
         hl = [n.id for n in g.nodes if n.kind == 'for' and hp.id in g.reach(
             [d for d, k in g.succ[n.id] if k == 'true'], avoid={n.id}, include_start=True)]
-        rep.check(bool(hl) and hl[-1] in dom[a] and a in dom[b] and a not in g.reach([b]) and
-                  hl[-1] not in g.reach([a]), R2,
+        same_head = a == b
+        rep.check(bool(hl) and hl[-1] in dom[a] and (same_head or (a in dom[b] and a not in g.reach([b])))
+                  and hl[-1] not in g.reach([a]), R2,
                   'reader: header search -> failures loop -> errors loop (dominance)',
                   'the consumer loops are not sequenced after the header parse',
                   key='body-dominance', func=READER, where=ctx.where(r, loops[0].head.stmt))
@@ -189,6 +233,9 @@ def r1_r2_wire(ctx, rep, R1='C07.R1', R2='C07.R2'):
         lp, counter, acc, nexts, apps, decs = cons
         body = [d for d, k in g.succ[lp.id] if k == 'true']
         one = True
+        if cons.form == 'extend-islice':
+            rep.ok(R2, 'reader %s.extend(... islice(it, %s)): one entry per line consumed' % (acc, counter))
+            continue
         groups = {'while-next': (nexts, apps, decs), 'for-range-next': (nexts, apps),
                   'for-islice': (apps,)}[cons.form]
         for group in groups:
